@@ -326,6 +326,9 @@ func (ks *keySets) paths(path string, p *spec.Paths) {
 }
 
 func (ks *keySets) securityScheme(path string, s *spec.SecurityScheme) {
+	if s == nil {
+		return // "a": null decodes to a nil scheme, encoded as null again
+	}
 	ks.extensions(path, s.Extensions)
 	if len(s.Scopes) > 0 {
 		var names []string
